@@ -121,6 +121,9 @@ def _atomize(expr):
         """sin/cos of q*pi for rational q, through the generators of an angle in [0, pi/4]"""
         q = q % 2
         sign = 1
+        exact = {0: (0, 1), sp.Rational(1, 2): (1, 0), 1: (0, -1), sp.Rational(3, 2): (-1, 0)}
+        if q in exact:
+            return sp.Integer(exact[q][0] if kind == "sin" else exact[q][1])
         if kind == "sin":
             if q >= 1:
                 q, sign = q - 1, -sign
